@@ -127,6 +127,11 @@ def _bitwise_and(x, y):
     return p.BitwiseAnd((x, y))
 
 
+def _pos(x):
+    # the parser reads "+x" as x, too
+    return x
+
+
 class ASTToPymbolic(ASTMapper):
 
     bin_op_map: ClassVar[dict[type[ast.operator], Any]] = {
@@ -158,7 +163,7 @@ class ASTToPymbolic(ASTMapper):
     unary_op_map: ClassVar[dict[type[ast.unaryop], Any]] = {
             ast.Invert: p.BitwiseNot,
             ast.Not: p.LogicalNot,
-            # ast.UAdd:
+            ast.UAdd: _pos,
             ast.USub: _neg,
             }
 
@@ -171,6 +176,16 @@ class ASTToPymbolic(ASTMapper):
                 f"'{type(expr.op).__name__}'") from None
 
         return op_constructor(self.rec(expr.operand))
+
+    bool_op_map: ClassVar[dict[type[ast.boolop], Any]] = {
+            ast.And: p.LogicalAnd,
+            ast.Or: p.LogicalOr,
+            }
+
+    def map_BoolOp(self, expr):  # noqa
+        # (boolop op, expr* values)
+        op_constructor = self.bool_op_map[type(expr.op)]
+        return op_constructor(tuple([self.rec(value) for value in expr.values]))
 
     def map_IfExp(self, expr):  # noqa
         # (expr test, expr body, expr orelse)
